@@ -1,6 +1,6 @@
 """C17 - residual graph hides only the decided and everything done."""
 
-from ..dworld import DWorld, Hooks, run_ops, gen_dispatch_ops, BUILDERS
+from ..dworld import DWorld, Hooks, run_ops, gen_dispatch_ops, BUILDERS, mark_manual
 from ..instances import gen_instance, n_ops, n_machines
 from ..model import graph_spec
 from ..util import stream
@@ -37,6 +37,11 @@ def generate(seed, tier):
     default = rng.random() < 0.5
     obs.append({"t": "residual", "builder": rng.choice(BUILDERS), "rm": True if default else rng.random() < 0.5,
                 "rj": True if default else rng.random() < 0.5})
+    mark_manual(stream(seed, "c17-manual"), obs, 0.08)
+    if stream(seed, "c17-blocks").random() < 0.08:
+        obs[-1]["builder"] = "blocks_reversed"
+    if default and stream(seed, "c17-kw").random() < 0.5:
+        obs[-1]["kw_default"] = True
     faulty = rng.random() < 0.5
     ops = gen_dispatch_ops(rng, n_ops(spec), p_query=0.05, p_invalid=0.08 if faulty else 0.0, p_reset=0.04 if faulty else 0.0,
                            episodes=2 if rng.random() < 0.2 else 1)
@@ -58,7 +63,12 @@ class H(Hooks):
     def __init__(self, w):
         self.upd = w.observers[-1][1]
         self.ospec = w.observers[-1][0]
-        self.node_types, _ = graph_spec(w.jobs, self.ospec["builder"])
+        if self.ospec["builder"] == "blocks_reversed":
+            # a hand-composed graph: what each node stands for is read from the node entities the user created
+            self.node_types = [(n.node_type.name, n.operation.operation_id if n.node_type.name == "OPERATION" else (n.machine_id if n.node_type.name == "MACHINE" else (n.job_id if n.node_type.name == "JOB" else None)))
+                               for n in self.upd.job_shop_graph.nodes]
+        else:
+            self.node_types, _ = graph_spec(w.jobs, self.ospec["builder"])
         self.prev_removed = None
         used = {m for job in w.jobs for ms, _ in job for m in ms}
         self.all_machines_used = len(used) == w.model.nm
@@ -76,7 +86,7 @@ class H(Hooks):
         now = m.now()
         completed = {m.opid[o] for o in m.completed(now)}
         scheduled = {m.opid[o] for o in m.scheduled()}
-        rem_ops = {n for n, t in enumerate(self.node_types) if t[0] == "OPERATION" and removed[n]}
+        rem_ops = {t[1] if self.ospec["builder"] == "blocks_reversed" else n for n, t in enumerate(self.node_types) if t[0] == "OPERATION" and removed[n]}
         when = f"after op {i} ({kind}), now={now}"
         ctx.check(completed <= rem_ops, "completed_operations_removed", lambda: f"{when}: completed operations {sorted(completed - rem_ops)} still in the graph")
         ctx.check(rem_ops <= scheduled, "unscheduled_never_removed", lambda: f"{when}: unscheduled operations {sorted(rem_ops - scheduled)} were removed")
